@@ -205,15 +205,45 @@ type tok struct {
 	v    int64
 }
 
-func run(h history, c config, label string) ([]outcome, error) {
-	log := mon.NewLog()
-	ttl := time.Duration(h.TTL) * time.Second
-	mk := func(name string) *we.Instance {
-		return we.NewInstance(log, name, we.Opt{TTL: ttl, CacheEntries: c.Cache})
+// pool holds one worker's reusable instances: three scripted instances plus
+// one "always cold" instance per cache size. Re-configuring TTL and cache size
+// through the public setters rebuilds an empty cache, which is what a fresh
+// process has.
+type pool struct {
+	log   *mon.Log
+	insts map[int][]*we.Instance // by cache size
+	cold  map[int]*we.Instance
+}
+
+func newPool(name string) *pool {
+	p := &pool{log: mon.NewLog(), insts: map[int][]*we.Instance{}, cold: map[int]*we.Instance{}}
+	for _, size := range []int{0, 1, -1} {
+		for i := 0; i < 3; i++ {
+			p.insts[size] = append(p.insts[size], we.NewInstance(p.log, fmt.Sprintf("%s-c%d-i%d", name, size, i), we.Opt{CacheEntries: size}))
+		}
+		p.cold[size] = we.NewInstance(p.log, fmt.Sprintf("%s-c%d-cold", name, size), we.Opt{CacheEntries: size})
 	}
-	insts := make([]*we.Instance, h.NInst)
-	for i := range insts {
-		insts[i] = mk(fmt.Sprintf("%s-i%d", label, i))
+	return p
+}
+
+func reset(in *we.Instance, ttl time.Duration, size int) {
+	in.H.SetTokenTTL(ttl) // rebuilds the cache at the default size
+	if size >= 0 {
+		in.H.SetCallStateCacheEntries(size)
+	}
+}
+
+func run(p *pool, h history, c config, label string) ([]outcome, error) {
+	p.log.Reset()
+	ttl := time.Duration(h.TTL) * time.Second
+	insts := p.insts[c.Cache][:h.NInst]
+	for _, in := range insts {
+		reset(in, ttl, c.Cache)
+	}
+	mk := func(string) *we.Instance {
+		in := p.cold[c.Cache]
+		reset(in, ttl, c.Cache) // empty cache: a process that never saw any stream
+		return in
 	}
 	var V int64
 	cur := make([]tok, len(h.Methods))
@@ -291,20 +321,21 @@ func contSteps(h history) []step {
 	return cs
 }
 
-func evaluate(r *mon.Run, h history, idx int) {
-	t0 := time.Now()
+func evaluate(r *mon.Run, p *pool, h history, idx int) {
 	results := map[string][]outcome{}
 	for _, c := range configs {
-		outs, err := run(h, c, fmt.Sprintf("h%d-%s", idx, c.Name))
+		t0 := time.Now()
+		outs, err := run(p, h, c, fmt.Sprintf("h%d-%s", idx, c.Name))
 		if err != nil {
 			r.Fatal("history %d (%s) under %s: %v", idx, h.Shape, c.Name, err)
 		}
+		if el := time.Since(t0); el > 900*time.Millisecond {
+			// Real time between minting and presenting leaked into the ages
+			// beyond the margin: do not judge this history.
+			r.Count("histories_skipped_slow", 1)
+			return
+		}
 		results[c.Name] = outs
-	}
-	if el := time.Since(t0); el > 900*time.Millisecond {
-		// Real time leaked into the ages beyond the margin: do not judge.
-		r.Count("histories_skipped_slow", 1)
-		return
 	}
 	cs := contSteps(h)
 	var shape strings.Builder
@@ -402,6 +433,7 @@ func routeSig(h history) string {
 }
 
 func main() {
+	mon.ChildMain(map[string]mon.ChildFunc{"concurrent": concurrentChild})
 	r := mon.Start("C15")
 	defer r.Finish()
 	r.SetRule("histories of 2..12 continuations of 1..3 streams (6 method kinds, 4 identities) over 1..3 instances sharing one key, TTL in {10 s, 1 min, 5 min, 1 h}, advances drawn from {0, 1, 3, TTL/4, TTL/2, 0.6 TTL, 0.9 TTL, TTL-3, TTL+3, 2 TTL} and nudged so no presented age lies within +-2 s of TTL; each history replayed under 5 cache/routing configurations; plus 8 stratified shapes per TTL and a TTL=1 s refuse-only shape. distinct = (shape, TTL, instances, methods, model verdict string, routing hash); trivial = none. Concurrent arm counted separately (coverage.lru_hammer, coverage.concurrent_streams)")
@@ -425,22 +457,23 @@ func main() {
 		r.Fatal("tiny shape in band")
 	}
 	hs = append(hs, tiny)
-	n := r.N(700, 60000)
+	n := r.N(300, 20000)
 	for i := 0; i < n; i++ {
 		rng := r.Rand(1, uint64(i))
 		hs = append(hs, randomHistory(rng, ttls[i%len(ttls)]))
 	}
 	var wg sync.WaitGroup
 	work := make(chan int)
-	workers := r.N(6, 14)
+	workers := r.N(8, 14)
 	for w := 0; w < workers; w++ {
 		wg.Add(1)
-		go func() {
+		go func(w int) {
 			defer wg.Done()
+			p := newPool(fmt.Sprintf("w%d", w))
 			for i := range work {
-				evaluate(r, hs[i], i)
+				evaluate(r, p, hs[i], i)
 			}
-		}()
+		}(w)
 	}
 	for i := range hs {
 		work <- i
@@ -456,10 +489,8 @@ func main() {
 	}
 
 	tH := time.Now()
-	lruHammer(r)
-	tL := time.Now()
-	concurrentStreams(r)
-	r.Set("wall_s_by_arm", map[string]float64{"histories": tH.Sub(t0).Seconds(), "lru_hammer": tL.Sub(tH).Seconds(), "concurrent_streams": time.Since(tL).Seconds()})
+	concurrentArm(r)
+	r.Set("wall_s_by_arm", map[string]float64{"histories": tH.Sub(t0).Seconds(), "concurrent_arm": time.Since(tH).Seconds()})
 
 	if n, head := we.RaceReports(); n > 0 {
 		r.Violation("race:call-cache", fmt.Sprintf("%d data race report(s) during the concurrent arm", n), map[string]any{"first_report": head})
@@ -469,141 +500,245 @@ func main() {
 }
 
 // ---- concurrent arm --------------------------------------------------------
+//
+// Runs in a child process per cache size: dropping the cache's lock makes the
+// Go runtime abort with "fatal error: concurrent map writes", which no
+// recover() sees; the parent turns a dead child into a violation.
 
-func lruHammer(r *mon.Run) {
-	opsPer := r.N(3000, 400000)
-	ids := []we.Identity{we.Anon, we.Auth("bearer", "alice"), we.Auth("jwt", "alice"), we.Auth("bearer", "bob")} // no cache-key-colliding pair: see SENSITIVITY.md
-	var hits, misses, puts, evictingPuts atomic.Int64
-	for _, size := range []int{1, 2, 64} {
-		c := vgirpc.VerifNewCallCache(size, time.Hour)
-		nKeys := size*3 + 2
-		var ver atomic.Int64
-		var wg sync.WaitGroup
-		for g := 0; g < 16; g++ {
-			wg.Add(1)
-			go func(g int) {
-				defer wg.Done()
-				rng := r.Rand(7, uint64(size), uint64(g))
-				for i := 0; i < opsPer; i++ {
-					k := rng.IntN(nKeys)
-					id := ids[k%len(ids)]
-					callID := fmt.Sprintf("%032x", k/len(ids))
-					name := callID + "/" + id.Key()
-					if rng.IntN(3) == 0 {
-						v := ver.Add(1)
-						streamID := fmt.Sprintf("%s#%d", name, v)
-						sum := sha256.Sum256([]byte(streamID))
-						c.Put(callID, id.AuthContext(), sum[:8], streamID)
-						puts.Add(1)
-						if m, _ := c.Len(); m >= size {
-							evictingPuts.Add(1)
-						}
-					} else {
-						schema, streamID, ok := c.Get(callID, id.AuthContext())
-						if !ok {
-							misses.Add(1)
-							continue
-						}
-						hits.Add(1)
-						sum := sha256.Sum256([]byte(streamID))
-						if !strings.HasPrefix(streamID, name+"#") || string(schema) != string(sum[:8]) {
-							r.Violation("lru:hit-returned-foreign-value", fmt.Sprintf("cache size %d: get(%s) returned stream id %q / schema %x", size, name, streamID, schema),
-								map[string]any{"size": size, "key": name, "stream_id": streamID, "schema": fmt.Sprintf("%x", schema)})
-						}
-					}
-				}
-			}(g)
-		}
-		wg.Wait()
-		m, l := c.Len()
-		if m != l || m > size {
-			r.Violation("lru:size-invariant", fmt.Sprintf("cache size %d holds map=%d list=%d entries at quiescence", size, m, l), map[string]any{"size": size, "map": m, "list": l})
-		}
-	}
-	if hits.Load() > 0 {
-		r.Class("lru:hit")
-	}
-	if misses.Load() > 0 {
-		r.Class("lru:miss")
-	}
-	if evictingPuts.Load() > 0 {
-		r.Class("lru:evicting-put")
-	}
-	r.Evals(int(hits.Load() + misses.Load() + puts.Load()))
-	r.Set("lru_hammer", map[string]any{"goroutines": 16, "sizes": []int{1, 2, 64}, "hits": hits.Load(), "misses": misses.Load(), "puts": puts.Load(), "puts_at_capacity": evictingPuts.Load()})
+type cViolation struct {
+	Sig     string `json:"sig"`
+	What    string `json:"what"`
+	Witness any    `json:"witness"`
 }
 
-func concurrentStreams(r *mon.Run) {
-	streamsPer := r.N(10, 400)
+type cResult struct {
+	Violations []cViolation     `json:"violations"`
+	Classes    map[string]int64 `json:"classes"`
+	Evals      int64            `json:"evals"`
+	Stats      map[string]int64 `json:"stats"`
+}
+
+type cInput struct {
+	Seed       int64 `json:"seed"`
+	Size       int   `json:"size"`
+	OpsPer     int   `json:"ops_per_goroutine"`
+	StreamsPer int   `json:"streams_per_goroutine"`
+}
+
+type sink struct {
+	mu  sync.Mutex
+	res cResult
+}
+
+func (k *sink) violation(sig, what string, w any) {
+	k.mu.Lock()
+	defer k.mu.Unlock()
+	for _, v := range k.res.Violations {
+		if v.Sig == sig {
+			return
+		}
+	}
+	k.res.Violations = append(k.res.Violations, cViolation{sig, what, w})
+}
+func (k *sink) class(c string)         { k.mu.Lock(); k.res.Classes[c]++; k.mu.Unlock() }
+func (k *sink) stat(c string, n int64) { k.mu.Lock(); k.res.Stats[c] += n; k.mu.Unlock() }
+func crng(seed int64, a, b uint64) *rand.Rand {
+	return rand.New(rand.NewPCG(uint64(seed)*0x9E3779B97F4A7C15+a, b+0xC15))
+}
+
+func concurrentChild(in []byte) []byte {
+	var ci cInput
+	if err := json.Unmarshal(in, &ci); err != nil {
+		panic(err)
+	}
+	k := &sink{res: cResult{Classes: map[string]int64{}, Stats: map[string]int64{}}}
+	lruHammer(k, ci)
+	concurrentStreams(k, ci)
+	out, err := json.Marshal(k.res)
+	if err != nil {
+		panic(err)
+	}
+	return out
+}
+
+func concurrentArm(r *mon.Run) {
+	var inputs [][]byte
+	sizes := []int{1, 2, 64}
+	for _, size := range sizes {
+		b, _ := json.Marshal(cInput{Seed: r.Seed(), Size: size, OpsPer: r.N(3000, 400000), StreamsPer: r.N(10, 300)})
+		inputs = append(inputs, b)
+	}
+	outs, err := mon.RunIsolated("concurrent", inputs, mon.ChildOpt{Timeout: 40 * time.Minute, BatchSize: 1})
+	if err != nil {
+		r.Fatal("concurrent arm: %v", err)
+	}
+	stats := map[string]int64{}
+	for i, o := range outs {
+		switch {
+		case o.TimedOut:
+			r.Inconclusive(fmt.Sprintf("concurrent arm (cache size %d): child watchdog fired", sizes[i]))
+		case o.Crashed || o.Panicked:
+			sig := "crash:concurrent-arm"
+			if strings.Contains(o.Detail, "concurrent map") {
+				sig = "crash:concurrent-map-access"
+			}
+			r.Violation(sig, fmt.Sprintf("process died during the concurrent call-cache arm (cache size %d)", sizes[i]), map[string]any{"size": sizes[i], "detail": o.Detail})
+		default:
+			var res cResult
+			if err := json.Unmarshal(o.Output, &res); err != nil {
+				r.Fatal("concurrent arm: bad child output: %v", err)
+			}
+			for _, v := range res.Violations {
+				r.Violation(v.Sig, v.What, v.Witness)
+			}
+			for c, n := range res.Classes {
+				for j := int64(0); j < n && j < 1; j++ {
+					r.Class(c)
+				}
+				stats["class."+c] += n
+			}
+			for c, n := range res.Stats {
+				stats[c] += n
+			}
+			r.Evals(int(res.Evals))
+		}
+	}
+	r.Set("concurrent_arm", map[string]any{"goroutines": 16, "cache_sizes": sizes, "instances_per_size": 2, "stats": stats})
+}
+
+func lruHammer(k *sink, ci cInput) {
+	size := ci.Size
+	ids := []we.Identity{we.Anon, we.Auth("bearer", "alice"), we.Auth("jwt", "alice"), we.Auth("bearer", "bob")} // no cache-key-colliding pair: see SENSITIVITY.md
+	var hits, misses, puts, evictingPuts atomic.Int64
+	c := vgirpc.VerifNewCallCache(size, time.Hour)
+	nKeys := size*3 + 2
+	var ver atomic.Int64
+	var wg sync.WaitGroup
+	for g := 0; g < 16; g++ {
+		wg.Add(1)
+		go func(g int) {
+			defer wg.Done()
+			rng := crng(ci.Seed, uint64(size), uint64(g))
+			for i := 0; i < ci.OpsPer; i++ {
+				kk := rng.IntN(nKeys)
+				id := ids[kk%len(ids)]
+				callID := fmt.Sprintf("%032x", kk/len(ids))
+				name := callID + "/" + id.Key()
+				if rng.IntN(3) == 0 {
+					v := ver.Add(1)
+					streamID := fmt.Sprintf("%s#%d", name, v)
+					sum := sha256.Sum256([]byte(streamID))
+					c.Put(callID, id.AuthContext(), sum[:8], streamID)
+					puts.Add(1)
+					if m, _ := c.Len(); m >= size {
+						evictingPuts.Add(1)
+					}
+				} else {
+					schema, streamID, ok := c.Get(callID, id.AuthContext())
+					if !ok {
+						misses.Add(1)
+						continue
+					}
+					hits.Add(1)
+					sum := sha256.Sum256([]byte(streamID))
+					if !strings.HasPrefix(streamID, name+"#") || string(schema) != string(sum[:8]) {
+						k.violation("lru:hit-returned-foreign-value", fmt.Sprintf("cache size %d: get(%s) returned stream id %q / schema %x", size, name, streamID, schema),
+							map[string]any{"size": size, "key": name, "stream_id": streamID, "schema": fmt.Sprintf("%x", schema)})
+					}
+				}
+			}
+		}(g)
+	}
+	wg.Wait()
+	m, l := c.Len()
+	if m != l || m > size {
+		k.violation("lru:size-invariant", fmt.Sprintf("cache size %d holds map=%d list=%d entries at quiescence", size, m, l), map[string]any{"size": size, "map": m, "list": l})
+	}
+	if hits.Load() > 0 {
+		k.class("lru:hit")
+	}
+	if misses.Load() > 0 {
+		k.class("lru:miss")
+	}
+	if evictingPuts.Load() > 0 {
+		k.class("lru:evicting-put")
+	}
+	k.res.Evals += hits.Load() + misses.Load() + puts.Load()
+	k.stat("lru.hits", hits.Load())
+	k.stat("lru.misses", misses.Load())
+	k.stat("lru.puts", puts.Load())
+	k.stat("lru.puts_at_capacity", evictingPuts.Load())
+}
+
+func concurrentStreams(k *sink, ci cInput) {
+	size := ci.Size
 	turns := 5
 	log := mon.NewLog()
 	var accepted atomic.Int64
-	for _, size := range []int{1, 2, 64} {
-		a := we.NewInstance(log, fmt.Sprintf("ca%d", size), we.Opt{TTL: time.Hour, CacheEntries: size})
-		b := we.NewInstance(log, fmt.Sprintf("cb%d", size), we.Opt{TTL: time.Hour, CacheEntries: size})
-		a.Parallel, b.Parallel = true, true
-		insts := []*we.Instance{a, b}
-		var wg sync.WaitGroup
-		for g := 0; g < 16; g++ {
-			wg.Add(1)
-			go func(g int) {
-				defer wg.Done()
-				rng := r.Rand(8, uint64(size), uint64(g))
-				for s := 0; s < streamsPer; s++ {
-					m := we.MethodByName([]string{"exch", "prod", "dyne", "dynp"}[rng.IntN(4)])
-					id := idPool[rng.IntN(len(idPool))]
-					arg := int64(rng.IntN(1000))
-					tag := fmt.Sprintf("z%d-g%d-s%d", size, g, s)
-					ua := map[string]string{"User-Agent": tag}
-					o := insts[rng.IntN(2)].Init(m.Name, id, arg, tag, ua)
-					if !o.Accepted() {
-						r.Violation("concurrent:init-refused", "init refused under concurrency: "+o.Refusal(), map[string]any{"tag": tag, "obs": o})
+	a := we.NewInstance(log, fmt.Sprintf("ca%d", size), we.Opt{TTL: time.Hour, CacheEntries: size})
+	b := we.NewInstance(log, fmt.Sprintf("cb%d", size), we.Opt{TTL: time.Hour, CacheEntries: size})
+	a.Parallel, b.Parallel = true, true
+	insts := []*we.Instance{a, b}
+	var wg sync.WaitGroup
+	for g := 0; g < 16; g++ {
+		wg.Add(1)
+		go func(g int) {
+			defer wg.Done()
+			rng := crng(ci.Seed, uint64(size)+1000, uint64(g))
+			for s := 0; s < ci.StreamsPer; s++ {
+				m := we.MethodByName([]string{"exch", "prod", "dyne", "dynp"}[rng.IntN(4)])
+				id := idPool[rng.IntN(len(idPool))]
+				arg := int64(rng.IntN(1000))
+				tag := fmt.Sprintf("z%d-g%d-s%d", size, g, s)
+				ua := map[string]string{"User-Agent": tag}
+				o := insts[rng.IntN(2)].Init(m.Name, id, arg, tag, ua)
+				if !o.Accepted() {
+					k.violation("concurrent:init-refused", "init refused under concurrency: "+o.Refusal(), map[string]any{"tag": tag, "obs": o})
+					return
+				}
+				cursor, call := o.Cursor, o.Call
+				exp := arg
+				wantSchema := "v"
+				if m.Dynamic {
+					wantSchema = "d"
+				}
+				for t := 0; t < turns; t++ {
+					in := insts[rng.IntN(2)]
+					val := int64(1 + rng.IntN(9))
+					var o we.Obs
+					probed := false
+					if rng.IntN(4) == 0 {
+						// Probe without the call token: a refusal "Missing call token" is the
+						// direct observation that this turn took the miss path.
+						o = in.Continue(we.Cont{Method: m.Name, ID: id, Cursor: cursor, Val: val, Tick: m.Producer, Hdr: ua})
+						if !o.Accepted() && strings.Contains(o.ErrMsg, "Missing call token") {
+							k.class("concurrent:cache-miss-path-taken")
+						} else if o.Accepted() {
+							probed = true
+							k.class("concurrent:cache-hit-without-call-token")
+						}
+					}
+					if !probed {
+						o = in.Continue(we.Cont{Method: m.Name, ID: id, Cursor: cursor, Call: call, Val: val, Tick: m.Producer, Hdr: ua})
+					}
+					if m.Producer {
+						exp++
+					} else {
+						exp += val
+					}
+					if !o.Accepted() || len(o.Rows) != 1 || o.Rows[0] != exp || o.Schema != wantSchema || o.Cursor == nil {
+						k.violation("concurrent:turn-outcome", fmt.Sprintf("stream %s (%s) turn %d under cache size %d: accepted=%v rows=%v schema=%q, expected [%d]/%q: %s", tag, m.Name, t, size, o.Accepted(), o.Rows, o.Schema, exp, wantSchema, o.Refusal()),
+							map[string]any{"tag": tag, "turn": t, "size": size, "obs": o})
 						return
 					}
-					cursor, call := o.Cursor, o.Call
-					exp := arg
-					wantSchema := "v"
-					if m.Dynamic {
-						wantSchema = "d"
-					}
-					for t := 0; t < turns; t++ {
-						in := insts[rng.IntN(2)]
-						val := int64(1 + rng.IntN(9))
-						var o we.Obs
-						probed := false
-						if rng.IntN(4) == 0 {
-							// Probe without the call token: a refusal "Missing call token" is the
-							// direct observation that this turn took the miss path.
-							o = in.Continue(we.Cont{Method: m.Name, ID: id, Cursor: cursor, Val: val, Tick: m.Producer, Hdr: ua})
-							if !o.Accepted() && strings.Contains(o.ErrMsg, "Missing call token") {
-								r.Class("concurrent:cache-miss-path-taken")
-							} else if o.Accepted() {
-								probed = true
-								r.Class("concurrent:cache-hit-without-call-token")
-							}
-						}
-						if !probed {
-							o = in.Continue(we.Cont{Method: m.Name, ID: id, Cursor: cursor, Call: call, Val: val, Tick: m.Producer, Hdr: ua})
-						}
-						if m.Producer {
-							exp++
-						} else {
-							exp += val
-						}
-						if !o.Accepted() || len(o.Rows) != 1 || o.Rows[0] != exp || o.Schema != wantSchema || o.Cursor == nil {
-							r.Violation("concurrent:turn-outcome", fmt.Sprintf("stream %s (%s) turn %d under cache size %d: accepted=%v rows=%v schema=%q, expected [%d]/%q: %s", tag, m.Name, t, size, o.Accepted(), o.Rows, o.Schema, exp, wantSchema, o.Refusal()),
-								map[string]any{"tag": tag, "turn": t, "size": size, "obs": o})
-							return
-						}
-						accepted.Add(1)
-						r.Class("concurrent:turn-accepted")
-						cursor = o.Cursor
-					}
+					accepted.Add(1)
+					k.class("concurrent:turn-accepted")
+					cursor = o.Cursor
 				}
-			}(g)
-		}
-		wg.Wait()
+			}
+		}(g)
 	}
+	wg.Wait()
 	// Every hook event of one stream (tagged through User-Agent) must carry one stream id.
 	byTag := map[string]map[string]int{}
 	for _, e := range log.Snapshot() {
@@ -616,19 +751,17 @@ func concurrentStreams(r *mon.Run) {
 		}
 		byTag[ev.Tag][ev.Stream]++
 	}
-	streams := 0
 	for tag, ids := range byTag {
-		streams++
 		if len(ids) != 1 {
-			r.Violation("concurrent:stream-id-mixed", fmt.Sprintf("stream %s was dispatched under %d different stream ids", tag, len(ids)), map[string]any{"tag": tag, "stream_ids": ids})
+			k.violation("concurrent:stream-id-mixed", fmt.Sprintf("stream %s was dispatched under %d different stream ids", tag, len(ids)), map[string]any{"tag": tag, "stream_ids": ids})
 		}
-		for id, n := range ids {
+		for id := range ids {
 			if id == "" {
-				r.Violation("concurrent:stream-id-empty", "dispatch without a stream id", map[string]any{"tag": tag})
+				k.violation("concurrent:stream-id-empty", "dispatch without a stream id", map[string]any{"tag": tag})
 			}
-			_ = n
 		}
 	}
-	r.Evals(int(accepted.Load()))
-	r.Set("concurrent_streams", map[string]any{"goroutines": 16, "cache_sizes": []int{1, 2, 64}, "instances_per_size": 2, "streams": streams, "turns_accepted": accepted.Load()})
+	k.res.Evals += accepted.Load()
+	k.stat("streams", int64(len(byTag)))
+	k.stat("turns_accepted", accepted.Load())
 }
